@@ -668,6 +668,41 @@ func genC08(e *emitter) {
 	for _, v := range lifetimes {
 		ls = append(ls, fmt.Sprintf("%d", v))
 	}
+	// storage statements of the profile rows: how do they select the row?
+	type stmtFact struct{ Var, DB, Text, Class string }
+	var stmts []stmtFact
+	for _, v := range []string{"loadUserProfileStmt", "saveUserProfileStmt", "deleteUserProfileStmt"} {
+		cl, ok := p.vars[v].(*ast.CompositeLit)
+		if !ok {
+			stmts = append(stmts, stmtFact{v, "?", "<not a map literal>", "unknown"})
+			continue
+		}
+		for _, el := range cl.Elts {
+			kv, ok := el.(*ast.KeyValueExpr)
+			if !ok {
+				stmts = append(stmts, stmtFact{v, "?", p.str(el), "unknown"})
+				continue
+			}
+			db, _ := p.evalStr(kv.Key)
+			text, okT := p.evalStr(kv.Value)
+			class := "unknown"
+			if okT {
+				class = c08ClassifyStmt(v, text)
+			}
+			stmts = append(stmts, stmtFact{v, db, text, class})
+		}
+	}
+	b.WriteString("/-- the SQL statements behind Load/Save/DeleteUserProfile: (variable, database, row selection) -/\n")
+	b.WriteString("def c08StorageStmts : List (List Char × List Char × KeyUse) := [\n")
+	for i, st := range stmts {
+		sep := ","
+		if i == len(stmts)-1 {
+			sep = ""
+		}
+		fmt.Fprintf(&b, "  (%s.toList, %s.toList, KeyUse.%s)%s  -- %s\n", leanStr(st.Var), leanStr(st.DB), st.Class, sep, st.Text)
+	}
+	b.WriteString("]\n\n")
+	e.facts["c08_storage_stmts"] = stmts
 	fmt.Fprintf(&b, "/-- argument (ns) of every `admincache.New(..)` call in cmd/keymasterd -/\ndef c08AdminCacheLifetimes : List Nat := [%s]\n", strings.Join(ls, ", "))
 	fmt.Fprintf(&b, "def c08AdminCacheLifetimesEvaluated : Bool := %s\n", leanBool(lifetimeOK))
 	life := int64(0)
@@ -682,6 +717,33 @@ func genC08(e *emitter) {
 	e.facts["c08_routes"] = routes
 	e.facts["c08_helpers"] = helpers
 	e.facts["c08_admincache_lifetimes_ns"] = lifetimes
+}
+
+// c08ClassifyStmt: exactKey iff the statement addresses the row by plain equality on username
+// (load/delete) or is an upsert on the username key with the name as first value (save).
+func c08ClassifyStmt(v, text string) string {
+	t := strings.ToLower(strings.Join(strings.Fields(text), " "))
+	t = strings.TrimSuffix(t, ";")
+	param := func(s string) bool { return s == "?" || s == "?1" || s == "$1" }
+	switch v {
+	case "loadUserProfileStmt":
+		const pre = "select profile_data from user_profile where username = "
+		if strings.HasPrefix(t, pre) && param(t[len(pre):]) {
+			return "exactKey"
+		}
+	case "deleteUserProfileStmt":
+		const pre = "delete from user_profile where username = "
+		if strings.HasPrefix(t, pre) && param(t[len(pre):]) {
+			return "exactKey"
+		}
+	case "saveUserProfileStmt":
+		switch t {
+		case "insert or replace into user_profile(username, profile_data) values(?, ?)",
+			"insert into user_profile(username, profile_data) values ($1,$2) on conflict(username) do update set profile_data = excluded.profile_data":
+			return "exactKey"
+		}
+	}
+	return "unknown"
 }
 
 // c08LeanChars renders s as an explicit Lean `List Char` literal.
